@@ -28,7 +28,7 @@ CHECKS = {
          "Bounds quick: every NUL-free byte string of length <= 5 as text (tag openers formed by text bytes excluded by assumption, stated in the harness); s0 TAG s1 [TAG z] with |s_i| <= 2 and TAG from a catalogue of 11 output/code/comment tags; string-literal contents <= 3 arbitrary bytes in 3 uses; the same inside if/for/fn/block-helper bodies with |s_i| <= 1; back-slash escape sequences before tag openers (runs of <= 3 back-slashes). Thorough: 7 / 3 / 5 / 2 bytes. Outside: NUL, unterminated strings, longer texts."),
  "C04": ("4/C04", "", "--budget 30m",
          "Bounded model checking of the evaluator's totality: for every cell of the kind matrices no feasible path panics (every reflect precondition is an explicit check of the reflect model; Go run-time checks are explicit in the executor) and Render returns output or (\"\", error). Every panic candidate is replayed natively.",
-         "Matrices over a pool of 33 value kinds (incl. pointer-to-map, named map/slice/string/int kinds) (ints with arbitrary 64-bit payload so negative/huge indexes are single models, strings with arbitrary bytes, typed nils, slices, arrays, maps of three key types, structs, pointers, functions of three signatures, iterator, template.HTML): 13 binary operators + ! + unary minus x L x R; container x index x {read, member-after-index, double index}; container x index x assigned value; receiver x 20 member/method expressions; iterable kinds; callee x 9 call shapes; 21 built-in helper calls x argument kinds; user functions x 14 call shapes; helpers whose iterator results are looped over; every program of 3 atoms (thorough: 4, also in silent tags) over a 38-atom vocabulary of identifiers, literals, operators, brackets and keywords as the content of a tag (token_programs). Outside: helpers backed by unmodelled libraries (pathFor, inflections, toJSON, env, debug), symbolic floats, random programs, regexp on symbolic strings."),
+         "Matrices over a pool of 33 value kinds (incl. pointer-to-map, named map/slice/string/int kinds) (ints with arbitrary 64-bit payload so negative/huge indexes are single models, strings with arbitrary bytes, typed nils, slices, arrays, maps of three key types, structs, pointers, functions of three signatures, iterator, template.HTML): 13 binary operators + ! + unary minus x L x R; container x index x {read, member-after-index, double index}; container x index x assigned value; receiver x 20 member/method expressions; iterable kinds; callee x 9 call shapes; 21 built-in helper calls x argument kinds; user functions x 14 call shapes; helpers whose iterator results are looped over; every program of 3 atoms (thorough: 4, also in silent tags) over a 38-atom vocabulary of identifiers, literals, operators, brackets and keywords as the content of a tag (token_programs). Outside: helpers backed by unmodelled libraries (pathFor, inflections, env, debug), symbolic floats, random programs, regexp on symbolic strings."),
  "C05": ("4/C05", "", "--budget 30m",
          "Bounded model checking of error propagation: a recording helper that fails iff a symbolic flag is set is placed at 54 positions (operand of every operator, conditions, branch bodies, loop iterable/body, array/hash element, index, helper and user-function arguments, block-helper block, contentFor/contentOf, partial, let, assignment, silent tags); whenever it ran and failed, Render must return a non-nil error that errors.Is the sentinel, with empty output; guarded positions decide reachability symbolically.",
          "Bounds: one failing call per template (plus a two-call harness), fixed surrounding templates. The tolerated fault (unknown identifier as condition / operand of ! == != && ||) is the negative control; Also: a failing call in two positions at once (both flags symbolic) and errors nested below a tolerated position. A bare unknown identifier nested inside such an operand (id(nope), xs[nope]) is a grey area of the statement and is not decided."),
@@ -71,8 +71,8 @@ CHECKS = {
          "Bounded model checking of composition = inlining: for 7 bodies (text, output tags reading data and caller variables, loop, conditional, let, + and raw) and arbitrary data values, partial(name, data) / partial with layout / nested layout / nested partials to depth 3 / contentFor + contentOf (emits nothing where defined; used once, twice with different data, with omitted data, undefined with and without default block) / a recording block helper / one data map shared by two partials / contentOf evaluated inside for, function and partial scopes must produce exactly what the same source renders to inline in the caller's scope extended with the data (the inline rendering is computed by plush itself on the inlined source); JavaScript escaping exactly for a javascript content type and a non-.js extension.",
          "Bounds quick: data values <= 1 arbitrary NUL-free byte; thorough <= 2 bytes. The inline reference relies on C01/C02 for the plain rendering."),
  "C20": ("4/C20", "", "--budget 30m",
-         "Bounded model checking of truncate / htmlEscape / jsEscape / raw: truncate over every byte string (invalid UTF-8 included, through the forking UTF-8 decoder), every 64-bit size and arbitrary trails against its laws (unchanged if short; else prefix of s on a character boundary + trail, at most max(size, len(trail)) characters), defaults, the template form, and multi-byte texts from rune classes (2/3/4-byte runes, combining marks) counted in characters not bytes; htmlEscape output decodes to its input with no raw special; jsEscape on arbitrary ASCII plus concrete non-ASCII cases has no < > & =, no unescaped quote, no raw line break; raw(s) is byte-identical through Render. toJSON is NOT checked: encoding/json cannot be encoded within reach (sub-claim excluded, see DESIGN.md).",
-         "Bounds quick: |s| <= 3, |trail| <= 1; thorough |s| <= 5, |trail| <= 2; jsEscape <= 2 (3) symbolic ASCII bytes on the engine's model of text/template.JSEscape (validated against the stdlib by selftest)."),
+         "Bounded model checking of truncate / htmlEscape / jsEscape / raw: truncate over every byte string (invalid UTF-8 included, through the forking UTF-8 decoder), every 64-bit size and arbitrary trails against its laws (unchanged if short; else prefix of s on a character boundary + trail, at most max(size, len(trail)) characters), defaults, the template form, and multi-byte texts from rune classes (2/3/4-byte runes, combining marks) counted in characters not bytes; htmlEscape output decodes to its input with no raw special; jsEscape on arbitrary ASCII plus concrete non-ASCII cases has no < > & =, no unescaped quote, no raw line break; raw(s) is byte-identical through Render. toJSON: an arbitrary valid UTF-8 string in 8 value shapes (bare, slice, map, tagged struct, nested interface values, template.HTML, pointers) and arbitrary 64-bit ints, bools, nil, typed nils, empty/nil containers, json.Marshaler / TextMarshaler values over a payload pool, and unrepresentable values are rendered through toJSON/json; the output must have no raw < > &, be well-formed under a JSON reader written from RFC 8259 and decode to the tokens of the value (ints: equal to the decimal text); unrepresentable values are errors. encoding/json itself is a model of the engine (type-directed encoder, both escaping modes, Marshal / Encoder / HTMLEscape), compared with the standard library by `symgo selftest`.",
+         "Bounds quick: |s| <= 3, |trail| <= 1; thorough |s| <= 5, |trail| <= 2; toJSON strings <= 2 (3) bytes; jsEscape <= 2 (3) symbolic ASCII bytes on the engine's model of text/template.JSEscape (validated against the stdlib by selftest)."),
 
  "C14": ("4/C14", "", "--budget 30m",
          "Bounded model checking of two logical threads (reduced claim): the executor runs the two operations as threads 1 and 2 in both orders, logs every access to a heap location (leaf cells, Go maps as one location each) with the mutexes held, and for every pair of conflicting accesses asks the solver whether timestamps exist in which the two are adjacent under program order and mutual exclusion of critical sections (critical sections that communicated keep their observed order); sat = data race, replayed natively under `go test -race`. Pairs: all 8x8 combinations of Set/Value/Has/New on a context and its parent; one parsed template (16 programs covering every node type) executed from two threads with own root contexts and with children of one shared parent, each result compared with the result of running alone; Render/Render (cold, warm, different texts) and Parse/CacheSet with the cache enabled.",
